@@ -226,10 +226,9 @@ func pcGuard(clause string, f func() Result) Result {
 		}()
 		ch <- f()
 	}()
-	select {
-	case r := <-ch:
+	if r, ok := recvBusyAware(ch, pcCaseTimeout); ok {
 		return r
-	case <-time.After(pcCaseTimeout):
+	} else {
 		pcHung = true
 		return Result{Obs: []string{"timeout"}, Oracle: []string{clause + "\tcase did not terminate within 30s (decoding or an accessor loop does not end)"}}
 	}
